@@ -142,7 +142,7 @@ struct Gen {
     { Rec &oo = op("open"); if ((prop == "C03" || prop == "C13") && g.chance(0.05)) oo.set("how", 1).set("notestopen", 1); }
     if (prop == "C09") { if (g.chance(0.3)) op("info").set("i", (int64_t)g.range(-1, sr.nlinks)); linear_read(g.chance(0.4)); op("read_float").set("len", 64); }
     else if (prop == "C10") { linear_read(true); op("read_float").set("len", 64); if (g.chance(0.5)) p.add("pktpath").set("frag", (int64_t)g.range(1, 5000)).setu("seed", g.next() % 1000); }
-    else if (prop == "C19") gen_lap();
+    else if (prop == "C19") { if (!(g.chance(0.15) && gen_laphole())) gen_lap(); }
     else if (prop == "C20") gen_halfrate(seekable);
     else if (prop == "C12" || (prop == "C13" && mode == "iofault")) gen_iofault();
     else if (mode == "damaged") gen_anyops(seekable);
@@ -200,6 +200,36 @@ struct Gen {
       else seek_op("_lap", true, 0.06);
       if (g.chance(0.3)) read_op(0, 2);
     }
+  }
+  // C19 on a stream with one lost / rejected / repeated page: the old position is placed so close in front of the gap that the lap data has to
+  // be collected across it ("the audio that would have been read next" is what a reader gets there: the rest of the pending block, then the
+  // audio decoded after the gap), and the lapped seek goes to a place where the stream is undisturbed
+  bool gen_laphole() {
+    std::vector<size_t> cand; for (int l = 0; l < sr.nlinks; l++) { std::vector<size_t> gp; for (size_t q = 0; q < sr.ps.pages.size(); q++) if (sr.ps.pages[q].link == l && !sr.ps.pages[q].header && sr.ps.pages[q].granule >= 0) gp.push_back(q); for (size_t a = 1; a + 3 < gp.size(); a++) cand.push_back(gp[a]); }
+    if (cand.empty()) return false;
+    size_t mark = p.recs.size();
+    static const char *hk[] = {"drop", "flip", "dup", "drop"}; p.add("pfault").set("kind", hk[g.below(4)]).set("page", (int64_t)cand[g.below(cand.size())]).set("a", (int64_t)(g.next() >> 20));
+    p.recs[0].set("hole", 1);
+    StreamRef s2; build_stream(p, s2);
+    if (!s2.hole) { p.recs.resize(mark); p.recs[0].erase("hole"); build_stream(p, sr); return false; }
+    int L = sr.link_of(std::min(s2.hole_at, std::max<int64_t>(0, sr.total - 1))); int64_t bs0 = sr.ps.links[(size_t)L]->bs0, bs1 = sr.ps.links[(size_t)L]->bs1;
+    auto safe_target = [&]() -> int64_t {
+      int64_t reach = 3 * bs1 + 128; std::vector<std::pair<int64_t, int64_t>> iv;
+      if (s2.hole_lo - reach > 0) iv.push_back({0, s2.hole_lo - reach}); if (s2.hole_hi + bs1 < sr.total) iv.push_back({s2.hole_hi + bs1, sr.total - 1});
+      if (iv.empty()) return g.range(0, sr.total); auto &v = iv[g.below(iv.size())]; return g.range(v.first, v.second); };
+    op("open");
+    int n = (int)g.range(1, thorough ? 6 : 3);
+    for (int i = 0; i < n; i++) {
+      int64_t old = s2.hole_at - (g.chance(0.7) ? g.range(0, bs0) : g.range(0, 3 * bs1)); if (g.chance(0.1)) old += g.range(1, bs1);
+      old = std::max<int64_t>(0, std::min(sr.total, old));
+      op(g.chance(0.8) ? "pcm_seek" : "pcm_seek_page").set("a", old);
+      if (g.chance(0.4)) op("read_float").set("len", (int64_t)g.range(1, std::max<int64_t>(2, bs0))).set("rep", 1);
+      static const char *lk[] = {"pcm_seek_lap", "pcm_seek_lap", "pcm_seek_page_lap", "time_seek_lap", "time_seek_page_lap"}; std::string k = lk[g.below(5)];
+      int64_t tgt = g.chance(0.9) ? safe_target() : pick_pos(); Rec &r = op(k);
+      if (k[0] == 'p') r.set("a", tgt); else r.setf("t", time_of(std::min(tgt, std::max<int64_t>(0, sr.total - 1)), g.chance(0.5) ? 0.0 : g.unit() * 0.999));
+      if (g.chance(0.3)) read_op(0, 2);
+    }
+    return true;
   }
   void gen_refusal() {   // stream has a 64-sample link: ov_halfrate(1) must be refused and change nothing (twin comparison)
     p.add("mirror");
